@@ -7,12 +7,17 @@
   The collector's counters are "sum over the messages" whatever their arrival order
   (`Proofs.Collector`), the analysis thread's per-batch messages sum to the closed forms for any
   number of batches, and no other sender contributes to these counters.
-  Partial (`…_partial`): the scanner-side counters (RDHs visited / matching, payload bytes, link
-  and FEE-ID lists) are tied to ground truth by the correspondence check and the model-free oracle
-  (independent chain walk), not yet by a theorem.
+  `run_scanner_stats`: for every well-framed input the scanner-side statistics equal their closed
+  forms over the packet list: RDHs seen = number of packets of the input (also the skipped ones),
+  RDHs filtered = number of packets matching the filter, payload = sum of the matching packets'
+  payload sizes, links = sorted first-occurrence list of link ids of all packets, FEE IDs =
+  first-occurrence list — for every filter, file or pipe, payload loaded or skipped, any length.
+  Not covered by a theorem: the report's derived strings (layout), and the set-once fields
+  (run trigger type, data format, system id: first header) which are tied by correspondence.
 -/
 import FastPasta.Model.Cli
 import FastPasta.Proofs.Collector
+import FastPasta.Proofs.ScanCount
 namespace FastPasta
 namespace C14
 
@@ -169,6 +174,214 @@ theorem run_hbfs_trig (o : Opts) (input : Bytes) (out : Outcome) (h : run o inpu
         simp only [List.map_append, sum_append, analysis_trig k p0 ps hsys,
           (scanner_msgs_no_hbf_trig _ k).2, (validator_msgs_no_hbf_trig vm k).2]
         split <;> simp [Stat.trigBit]
+
+/-! ### scanner-side statistics -/
+open C03
+
+def _root_.FastPasta.Stat.linkOf : Stat → Option Nat | .link l => some l | _ => none
+def _root_.FastPasta.Stat.feeOf : Stat → Option Nat | .feeId f => some f | _ => none
+
+/-- a statistic the scanner-side fields ignore -/
+def _root_.FastPasta.Stat.scannerFree : Stat → Bool
+  | .rdhSeen _ | .rdhFiltered _ | .payloadSize _ | .link _ | .feeId _ => false
+  | _ => true
+
+theorem step_links (cap : Nat) (c : Coll) (m : Stat) : (c.step cap m).links = c.links ++ (Stat.linkOf m).toList := by
+  cases m <;> simp [Coll.step, Stat.linkOf] <;> (repeat' split) <;> simp
+theorem step_fees (cap : Nat) (c : Coll) (m : Stat) :
+    (c.step cap m).fees = (Stat.feeOf m).toList.foldl addNew c.fees := by
+  cases m <;> simp [Coll.step, Stat.feeOf, addNew] <;> (repeat' split) <;> simp_all
+
+theorem run_links (cap : Nat) (ms : List Stat) : ∀ c : Coll, (Coll.run cap c ms).links = c.links ++ ms.filterMap Stat.linkOf := by
+  induction ms with
+  | nil => intro c; simp [Coll.run]
+  | cons m ms ih =>
+    intro c
+    simp only [Coll.run, List.foldl_cons] at ih ⊢
+    rw [ih, step_links]
+    cases h : Stat.linkOf m <;> simp [List.filterMap_cons, h]
+
+theorem run_fees (cap : Nat) (ms : List Stat) : ∀ c : Coll, (Coll.run cap c ms).fees = (ms.filterMap Stat.feeOf).foldl addNew c.fees := by
+  induction ms with
+  | nil => intro c; simp [Coll.run]
+  | cons m ms ih =>
+    intro c
+    simp only [Coll.run, List.foldl_cons] at ih ⊢
+    rw [ih, step_fees]
+    cases h : Stat.feeOf m <;> simp [List.filterMap_cons, h]
+
+structure Silent (ms : List Stat) : Prop where
+  seen : (ms.map Stat.seen).sum = 0
+  filtered : (ms.map Stat.filteredN).sum = 0
+  payload : (ms.map Stat.payloadN).sum = 0
+  links : ms.filterMap Stat.linkOf = []
+  fees : ms.filterMap Stat.feeOf = []
+
+theorem silent_of_free (ms : List Stat) (h : ∀ m ∈ ms, m.scannerFree = true) : Silent ms := by
+  induction ms with
+  | nil => exact ⟨rfl, rfl, rfl, rfl, rfl⟩
+  | cons m ms ih =>
+    have hm := h m (by simp)
+    obtain ⟨i1, i2, i3, i4, i5⟩ := ih (fun x hx => h x (by simp [hx]))
+    cases m <;> first
+      | exact ⟨by simpa [Stat.seen] using i1, by simpa [Stat.filteredN] using i2, by simpa [Stat.payloadN] using i3,
+               by simpa [List.filterMap_cons, Stat.linkOf] using i4, by simpa [List.filterMap_cons, Stat.feeOf] using i5⟩
+      | (exfalso; simp [Stat.scannerFree] at hm)
+
+theorem Silent.append {a b : List Stat} (ha : Silent a) (hb : Silent b) : Silent (a ++ b) :=
+  ⟨by simp [sum_append, ha.seen, hb.seen], by simp [sum_append, ha.filtered, hb.filtered],
+   by simp [sum_append, ha.payload, hb.payload], by simp [ha.links, hb.links], by simp [ha.fees, hb.fees]⟩
+
+theorem analysisBatch_free (sys : Nat) (b : List Packet) : ∀ m ∈ analysisBatch sys b, m.scannerFree = true := by
+  intro m hm
+  unfold analysisBatch at hm
+  split at hm
+  · simp only [List.mem_append, List.mem_flatMap, List.mem_singleton] at hm
+    rcases hm with ⟨p, _, hm⟩ | rfl
+    · rcases hm with rfl | hm
+      · rfl
+      · split at hm
+        · simp only [List.mem_singleton] at hm; subst hm; rfl
+        · simp at hm
+    · rfl
+  · split at hm
+    · simp only [List.mem_singleton] at hm; subst hm; rfl
+    · simp only [List.mem_cons, List.not_mem_nil, or_false] at hm
+      rcases hm with rfl | rfl | rfl <;> rfl
+
+theorem analysisMsgs_free (pk : List Packet) : ∀ m ∈ analysisMsgs pk, m.scannerFree = true := by
+  intro m hm
+  unfold analysisMsgs at hm
+  split at hm
+  · simp at hm
+  · simp only [List.mem_flatMap] at hm
+    obtain ⟨b, _, hm⟩ := hm
+    exact analysisBatch_free _ b m hm
+
+theorem validator_free (ms : List Msg) : ∀ m ∈ ms.map msgToStat, m.scannerFree = true := by
+  intro m hm
+  simp only [List.mem_map] at hm
+  obtain ⟨x, _, rfl⟩ := hm
+  cases x <;> rfl
+
+/-- what the scanner's non-counter messages contribute -/
+theorem plain_stats (ms : List InMsg) (h : AllPlain ms) :
+    ((ms.flatMap inMsgToStat).map Stat.seen).sum = 0 ∧ ((ms.flatMap inMsgToStat).map Stat.filteredN).sum = 0 ∧
+    ((ms.flatMap inMsgToStat).map Stat.payloadN).sum = 0 ∧
+    (ms.flatMap inMsgToStat).filterMap Stat.linkOf = ms.filterMap C03.linkOf ∧
+    (ms.flatMap inMsgToStat).filterMap Stat.feeOf = ms.filterMap C03.feeOf := by
+  induction ms with
+  | nil => exact ⟨rfl, rfl, rfl, rfl, rfl⟩
+  | cons m ms ih =>
+    have hm := h m (by simp)
+    obtain ⟨i1, i2, i3, i4, i5⟩ := ih (fun x hx => h x (by simp [hx]))
+    simp only [List.flatMap_cons, List.map_append, sum_append, List.filterMap_append, i1, i2, i3, i4, i5]
+    cases m <;> first
+      | (exfalso; simp [InMsg.plain] at hm; done)
+      | (simp [List.filterMap_cons, inMsgToStat, Stat.seen, Stat.filteredN, Stat.payloadN, Stat.linkOf, Stat.feeOf, C03.linkOf, C03.feeOf]; done)
+      | (simp only [inMsgToStat]; split <;>
+          simp [List.filterMap_cons, Stat.seen, Stat.filteredN, Stat.payloadN, Stat.linkOf, Stat.feeOf, C03.linkOf, C03.feeOf])
+
+theorem addNew_nodup (a : List Nat) (l : List Nat) (h : (a ++ l).Nodup) : l.foldl addNew a = a ++ l := by
+  induction l generalizing a with
+  | nil => simp
+  | cons x xs ih =>
+    have hx : x ∉ a := by
+      intro hxa
+      have := List.nodup_append.mp h
+      exact this.2.2 x hxa x (by simp) rfl
+    have h' : ((a ++ [x]) ++ xs).Nodup := by simpa using h
+    simp only [List.foldl_cons, addNew, List.contains_iff_mem, hx, ↓reduceIte]
+    rw [ih _ h']; simp
+
+theorem addNew_keeps_nodup (a : List Nat) (x : Nat) (h : a.Nodup) : (addNew a x).Nodup := by
+  unfold addNew
+  split
+  · exact h
+  · rename_i hx
+    simp only [List.contains_iff_mem] at hx
+    rw [List.nodup_append]
+    exact ⟨h, by simp, by intro y hy z hz; simp only [List.mem_singleton] at hz; subst hz; intro e; subst e; exact hx hy⟩
+
+theorem foldl_addNew_nodup (l : List Nat) : ∀ a : List Nat, a.Nodup → (l.foldl addNew a).Nodup := by
+  induction l with
+  | nil => intro a h; exact h
+  | cons x xs ih => intro a h; exact ih _ (addNew_keeps_nodup a x h)
+
+/-- shape of a run that passed the start-up gate and did not panic -/
+theorem run_form (o : Opts) (input : Bytes) (out : Outcome) (h : run o input = .ok out) (hinit : out.initErr = false) :
+    ∃ vm : List Msg, out.fin = finalize o.mute o.customCdps o.customPht
+      (Coll.run o.cap (if o.isCheck && o.target == .itsStave then { alpide := some {} } else {})
+        ([Stat.rdhVersion (bAt input 0)] ++
+          (if o.isCheck || o.isView then analysisMsgs (scanAll o.scanCfg input).packets else []) ++
+          vm.map msgToStat ++ (scanAll o.scanCfg input).msgs.flatMap inMsgToStat)) := by
+  unfold run at h
+  split at h
+  · simp only [Except.ok.injEq] at h; subst h; simp at hinit
+  · by_cases hc : o.isCheck = true
+    · simp only [hc, ↓reduceIte] at h
+      cases hrv : runValidators o.checkCfg [] (scanAll o.scanCfg input).packets with
+      | error e => simp [hrv] at h
+      | ok d =>
+        simp only [hrv, Except.ok.injEq] at h
+        subst h
+        exact ⟨d.allMsgs, by simp [hc]⟩
+    · simp only [hc, Bool.false_eq_true, ↓reduceIte, Except.ok.injEq] at h
+      subst h
+      exact ⟨[], by simp [hc]⟩
+
+/-- **C14 (scanner-side statistics)**: on every well-framed input that passes the start-up gate,
+    for every command, filter, source and payload mode, the reported numbers of RDHs seen and
+    filtered, the payload byte count, the link list and the FEE-ID list equal the closed forms
+    over the packet list of the input. -/
+theorem run_scanner_stats (o : Opts) (ps : List RawPkt) (hwf : ∀ p ∈ ps, WF p)
+    (out : Outcome) (h : run o (bytesOf ps) = .ok out) (hinit : out.initErr = false) :
+    out.fin.coll.rdhsSeen = ps.length ∧
+    out.fin.coll.rdhsFiltered = (if o.filter.isSome then (matched o.filter ps).length else 0) ∧
+    out.fin.coll.payload = payloadSum (matched o.filter ps) ∧
+    out.fin.coll.links = sortNat (linksFrom [] ps) ∧
+    out.fin.coll.fees = feesFrom [] ps := by
+  have hcnt := scanLoop_counts o.scanCfg [] (by simp) ps.length ps (Nat.le_refl _) hwf { rest := bytesOf ps } [] [] (by simp)
+  have hpl := scanLoop_plain o.scanCfg { rest := bytesOf ps } [] [] AllPlain.nil
+  have hann := scanLoop_announced o.scanCfg { rest := bytesOf ps } [] [] [] [] ⟨rfl, rfl⟩
+  simp only at hcnt
+  obtain ⟨c1, c2, c3, c4, c5⟩ := hcnt
+  simp only [Nat.zero_add] at c1 c2 c3
+  obtain ⟨vm, hfin⟩ := run_form o (bytesOf ps) out h hinit
+  rw [hfin]
+  simp only [finalize]
+  · · have hvs : Silent (vm.map msgToStat) := silent_of_free _ (validator_free _)
+      have has : Silent (if (o.isCheck || o.isView) = true then analysisMsgs (scanAll o.scanCfg (bytesOf ps)).packets else []) := by
+        split
+        · exact silent_of_free _ (analysisMsgs_free _)
+        · exact silent_of_free _ (by simp)
+      have hver : Silent [Stat.rdhVersion (bAt (bytesOf ps) 0)] := silent_of_free _ (by simp [Stat.scannerFree])
+      have hpre := (hver.append has).append hvs
+      obtain ⟨p1, p2, p3, p4, p5⟩ := plain_stats _ hpl
+      have hsc : (scanAll o.scanCfg (bytesOf ps)).msgs =
+          (scanLoop o.scanCfg { rest := bytesOf ps } [] []).msgs ++
+            [.rdhSeen ps.length, .rdhFiltered (if o.filter.isSome then (matched o.filter ps).length else 0),
+             .payloadSize (payloadSum (matched o.filter ps))] := by
+        simp only [scanAll, c1, c2, c3]; rfl
+      refine ⟨?_, ?_, ?_, ?_, ?_⟩
+      · rw [run_seen, List.map_append, sum_append, hpre.seen, hsc, List.flatMap_append, List.map_append, sum_append, p1]
+        split <;> simp [inMsgToStat, Stat.seen]
+      · rw [run_filtered, List.map_append, sum_append, hpre.filtered, hsc, List.flatMap_append, List.map_append, sum_append, p2]
+        split <;> simp [inMsgToStat, Stat.filteredN]
+      · rw [run_payload, List.map_append, sum_append, hpre.payload, hsc, List.flatMap_append, List.map_append, sum_append, p3]
+        split <;> simp [inMsgToStat, Stat.payloadN]
+      · rw [run_links, List.filterMap_append, hpre.links, hsc, List.flatMap_append, List.filterMap_append, p4]
+        have := hann.links
+        simp only [List.nil_append] at this
+        rw [this, c4]
+        split <;> simp [List.filterMap_cons, inMsgToStat, Stat.linkOf]
+      · rw [run_fees, List.filterMap_append, hpre.fees, hsc, List.flatMap_append, List.filterMap_append, p5]
+        have := hann.fees
+        simp only [List.nil_append] at this
+        rw [this, c5]
+        have hnd : (feesFrom [] ps).Nodup := foldl_addNew_nodup _ [] List.nodup_nil
+        have := addNew_nodup [] (feesFrom [] ps) (by simpa using hnd)
+        split <;> simp [List.filterMap_cons, inMsgToStat, Stat.feeOf, this]
 
 end C14
 end FastPasta
